@@ -100,6 +100,24 @@ CHECKS = {
         ],
         "assumptions": ["transforms inside the DAG are rigid motions, mirrors and uniform scales so that guards transform exactly; leaves are posed primitives (epsilon-valid, general position by construction)"],
     },
+    "C05": {
+        "subs": [
+            {"name": "values", "bin": "c05_values", "variant": "asan",
+             "quick": {"n": 3200, "size": 100}, "thorough": {"n": 200000, "size": 150}},
+        ],
+        "assumptions": ["the lazily/eagerly observed twin runs are compared as solids (Status, emptiness, volume) and only for values that do not depend on a triangulation (no Warp/Refine/Smooth/Simplify/float re-import upstream)"],
+    },
+    "C09": {
+        "subs": [
+            {"name": "malformed", "bin": "c09_malformed", "variant": "asan",
+             "quick": {"n": 24000, "size": 100}, "thorough": {"n": 800000, "size": 160}},
+            {"name": "libfuzzer", "bin": "c09_malformed", "variant": "fuzz", "mode": "fuzz", "replay_sub": "malformed",
+             "thorough": {"seconds": 900, "jobs": 16}},
+        ],
+        "assumptions": ["finite geometric arguments stay below 1e150 in magnitude (overflow of products of astronomically large finite coordinates is not generated); MeshGL fields do get DBL_MAX-scale values",
+                        "documented-large requests (tiny refine lengths, huge LevelSet grids, >4096 segments) are excluded and counted; non-termination would show only as a time-out (inconclusive)",
+                        "the 32-bit export is not required to be finite when a 64-bit value exceeds 1e30 (float overflow is inherent)"],
+    },
 }
 
 PBT = "property-based testing (rapidcheck byte-tape generators, shrinking, replay files)"
@@ -131,4 +149,8 @@ MANIFEST_TEXT["C08"] = {"text": "export -> import -> export compared as numberin
                         "note": "sampled programs of <= 9 steps; meshes <= 1500 triangles", "technique": PBT + " with round-trip oracles"}
 MANIFEST_TEXT["C03"] = {"text": "each generated expression DAG executed five ways (eager, lazy, generated forcing history, algebraic rewrites, shared-first); differential agreement plus agreement with the set formula evaluated from the leaves by an independent winding number",
                         "note": "sampled DAGs of <= 7 leaves; classification at sampled guarded points", "technique": PBT + " differential/metamorphic testing across evaluation strategies"}
+MANIFEST_TEXT["C05"] = {"text": "model-based histories over a growing pool: every observed Manifold/CrossSection keeps a byte-identical fingerprint (all getters and both exports) after every later operation, copies equal their source, late first observation equals early observation",
+                        "note": "sampled histories of <= 24 steps; first observation happens at generated times", "technique": PBT + " (stateful, model-based: fingerprint map as reference model)"}
+MANIFEST_TEXT["C09"] = {"text": "structure-aware mutation of valid MeshGL exports, boundary-value arguments for every constructor/operation, malformed polygons/points/OBJ text, followed by programs of operations; judged by sanitizers, an exception trap, the closed-manifold-or-empty-error predicate and error stickiness; the same decoder runs under rapidcheck (seed-pure) and libFuzzer (coverage-guided, thorough tier)",
+                        "note": "quick tier is generated search only; libFuzzer campaigns pin only approximately (the saved artefact is the reproducible unit)", "technique": PBT + " and coverage-guided fuzzing (libFuzzer) with an in-target semantic oracle"}
 NOT_CLAIMED = {}
